@@ -712,7 +712,8 @@ PROPS = {
                   ("Bug_NoRescheduleForLevel0", "MC_RainRoom.tla", "MC_RainRoom.cfg", "WorkIsScheduled"),
                   ("Bug_FlushDoesNotWake", "MC_RainRoom.tla", "MC_RainRoom.cfg", "NoLostWaiter"),
                   ("Bug_RotateDoesNotSchedule", "MC_RainRoom.tla", "MC_RainRoom.cfg", "WorkIsScheduled"),
-                  ("Bug_StopBelowTrigger", "MC_RainRoom.tla", "MC_RainRoom.cfg", "NoLostWaiter")],
+                  ("Bug_StopBelowTrigger", "MC_RainRoom.tla", "MC_RainRoom.cfg", "NoLostWaiter"),
+                  ("Bug_EmptyMemtableFull", "MC_RainRoom.tla", "MC_RainRoom.cfg", None)],
         work=[dict(driver="live", args=["--ops", "150"], quick=16, thorough=400, trace=CONC_TRACE,
                    final_rc3=True),
               # slow worker: flushes pile level-0 files up during long compactions until writers
